@@ -63,22 +63,56 @@ func freshName(prefix string) string {
 	return fmt.Sprintf("%s%d", prefix, caseCounter)
 }
 
-// drawFrom runs one case of a workload of builder-ctrl (same PRNG) and returns its input.
-func drawFrom(c *gen.Ctx, workload string) (json.RawMessage, error) {
+// drawBatch runs n cases of a workload of builder-ctrl (same PRNG) and returns their inputs.
+func drawBatch(c *gen.Ctx, workload string, n int) ([]json.RawMessage, error) {
 	var buf bytes.Buffer
-	sub := &gen.Ctx{R: c.R, N: 1, Wide: c.Wide, Out: bufio.NewWriter(&buf)}
+	sub := &gen.Ctx{R: c.R, N: n, Wide: c.Wide, Out: bufio.NewWriter(&buf)}
 	wlctrl.Prop = ""
 	if err := gen.Workloads[workload](sub); err != nil {
 		return nil, err
 	}
 	_ = sub.Out.Flush()
-	var line struct {
-		In json.RawMessage `json:"in"`
+	var ret []json.RawMessage
+	for _, ln := range bytes.Split(bytes.TrimSpace(buf.Bytes()), []byte("\n")) {
+		var line struct {
+			In json.RawMessage `json:"in"`
+		}
+		if err := json.Unmarshal(ln, &line); err != nil {
+			return nil, fmt.Errorf("drawing from %s: %w", workload, err)
+		}
+		ret = append(ret, line.In)
 	}
-	if err := json.Unmarshal(bytes.TrimSpace(buf.Bytes()), &line); err != nil {
-		return nil, fmt.Errorf("drawing from %s: %w", workload, err)
+	return ret, nil
+}
+
+// drawFrom: one case.
+func drawFrom(c *gen.Ctx, workload string) (json.RawMessage, error) {
+	ins, err := drawBatch(c, workload, 1)
+	if err != nil {
+		return nil, err
 	}
-	return line.In, nil
+	return ins[0], nil
+}
+
+// inputs: the replay inputs of f, or n inputs drawn from builder-ctrl's workload in batches
+// (its ctrlfault generator cycles through the write kinds × dry-run by case index).
+func inputs(c *gen.Ctx, f, workload string, batch int) ([]json.RawMessage, error) {
+	if c.Replay != "" {
+		return c.ReplayInputs(f)
+	}
+	var ret []json.RawMessage
+	for len(ret) < c.N {
+		k := batch
+		if c.N-len(ret) < k {
+			k = c.N - len(ret)
+		}
+		ins, err := drawBatch(c, workload, k)
+		if err != nil {
+			return nil, err
+		}
+		ret = append(ret, ins...)
+	}
+	return ret, nil
 }
 
 // RunHistorySQL replays fixed ops on a fresh ledger (its own bucket) over the SQL store.
